@@ -167,42 +167,64 @@ Section Dedupe.
     end.
   Definition dedupe (ls : list (list Z)) : list (list Z) := dedupe_aux [] ls.
 
+  (* [U]: the lines under consideration; the key only has to decide P on them *)
+  Lemma dedupe_filter_on (U : list (list Z)) (P : list Z -> bool) :
+    (forall l1 l2, In l1 U -> In l2 U -> kf l1 = kf l2 -> P l1 = P l2) ->
+    forall ls seenP seenAll, incl ls U ->
+      (forall l, In l ls -> P l = true -> existsb (keq (kf l)) seenP = existsb (keq (kf l)) seenAll) ->
+      dedupe_aux seenP (filter P ls) = filter P (dedupe_aux seenAll ls).
+  Proof.
+    intros HP. induction ls as [|l ls IH]; intros seenP seenAll Hincl Hinv; [reflexivity|].
+    assert (HlU : In l U) by (apply Hincl; left; reflexivity).
+    assert (Hincl' : incl ls U) by (intros x Hx; apply Hincl; right; exact Hx).
+    simpl. destruct (P l) eqn:EP.
+    - simpl. rewrite (Hinv l (or_introl eq_refl) EP).
+      destruct (existsb (keq (kf l)) seenAll) eqn:ES.
+      + apply IH; [exact Hincl'|]. intros l' Hl'. apply Hinv. right. exact Hl'.
+      + simpl. rewrite EP. f_equal. apply IH; [exact Hincl'|].
+        intros l' Hl' HP'. simpl. rewrite (Hinv l' (or_intror Hl') HP'). reflexivity.
+    - destruct (existsb (keq (kf l)) seenAll) eqn:ES.
+      + apply IH; [exact Hincl'|]. intros l' Hl'. apply Hinv. right. exact Hl'.
+      + simpl. rewrite EP. apply IH; [exact Hincl'|].
+        intros l' Hl' HP'. simpl. rewrite (Hinv l' (or_intror Hl') HP').
+        destruct (keq (kf l') (kf l)) eqn:EK; [|reflexivity].
+        apply keq_spec in EK. rewrite (HP l' l (Hincl' l' Hl') HlU EK) in HP'. congruence.
+  Qed.
+
   Lemma dedupe_filter (P : list Z -> bool) :
     (forall l1 l2, kf l1 = kf l2 -> P l1 = P l2) ->
     forall ls seenP seenAll,
       (forall l, P l = true -> existsb (keq (kf l)) seenP = existsb (keq (kf l)) seenAll) ->
       dedupe_aux seenP (filter P ls) = filter P (dedupe_aux seenAll ls).
   Proof.
-    intros HP. induction ls as [|l ls IH]; intros seenP seenAll Hinv; [reflexivity|].
-    simpl. destruct (P l) eqn:EP.
-    - simpl. rewrite (Hinv l EP).
-      destruct (existsb (keq (kf l)) seenAll) eqn:ES.
-      + apply IH. exact Hinv.
-      + simpl. rewrite EP. f_equal. apply IH.
-        intros l' HP'. simpl. rewrite (Hinv l' HP'). reflexivity.
-    - destruct (existsb (keq (kf l)) seenAll) eqn:ES.
-      + apply IH. exact Hinv.
-      + simpl. rewrite EP. apply IH.
-        intros l' HP'. simpl. rewrite (Hinv l' HP').
-        destruct (keq (kf l') (kf l)) eqn:EK; [|reflexivity].
-        apply keq_spec in EK. rewrite (HP _ _ EK) in HP'. congruence.
+    intros HP ls seenP seenAll Hinv. apply (dedupe_filter_on ls P).
+    - intros l1 l2 _ _. apply HP.
+    - apply incl_refl.
+    - intros l _. apply Hinv.
   Qed.
 
-  (* lines with equal dedupe key go to the same shard (same -f/-d for both tools,
-     no hash collision between different keys) => deduplicating every shard gives,
-     as a multiset, the deduplicated input *)
-  Theorem dedupe_commutes keyhash n ls : 0 < n ->
-    (forall l1 l2, kf l1 = kf l2 -> index keyhash n l1 = index keyhash n l2) ->
+  (* lines OF THE INPUT with equal dedupe key go to the same shard (same -f/-d for both
+     tools, no hash collision between different keys among these lines) => deduplicating
+     every shard gives, as a multiset, the deduplicated input.  The hypothesis speaks
+     about the input lines only: it is satisfiable for a 64-bit hash. *)
+  Theorem dedupe_commutes_on keyhash n ls : 0 < n ->
+    (forall l1 l2, In l1 ls -> In l2 ls -> kf l1 = kf l2 -> index keyhash n l1 = index keyhash n l2) ->
     Permutation (concat (map dedupe (shard keyhash n ls))) (dedupe ls).
   Proof.
     intros Hn Hk. rewrite shard_eq_map by exact Hn. rewrite map_map.
     assert (E : map (fun i => dedupe (filter (fun l => Nat.eqb (idx keyhash n l) i) ls)) (seq 0 (N.to_nat n)) =
                 map (fun i => filter (fun l => Nat.eqb (idx keyhash n l) i) (dedupe ls)) (seq 0 (N.to_nat n))).
-    { apply map_ext. intros i. unfold dedupe. apply dedupe_filter.
-      - intros l1 l2 H. unfold idx. rewrite (Hk l1 l2 H). reflexivity.
-      - intros l _. reflexivity. }
+    { apply map_ext. intros i. unfold dedupe. apply (dedupe_filter_on ls).
+      - intros l1 l2 H1 H2 H. unfold idx. rewrite (Hk l1 l2 H1 H2 H). reflexivity.
+      - apply incl_refl.
+      - intros l _ _. reflexivity. }
     rewrite E. apply classes_permutation. intros l _. apply idx_lt. exact Hn.
   Qed.
+
+  Theorem dedupe_commutes keyhash n ls : 0 < n ->
+    (forall l1 l2, kf l1 = kf l2 -> index keyhash n l1 = index keyhash n l2) ->
+    Permutation (concat (map dedupe (shard keyhash n ls))) (dedupe ls).
+  Proof. intros Hn Hk. apply dedupe_commutes_on; [exact Hn|]. intros l1 l2 _ _. apply Hk. Qed.
 End Dedupe.
 
 (* ------------------------------------------------------------ blocks handed to the writer *)
